@@ -45,12 +45,28 @@ def new_env():
     if f == "tx":
         from env import tx
         tx.new_clock()
+        _quiet_twisted()
         return lambda: 0
     if f == "aio":
         from env import aio
         loop = aio.new_loop()
         return loop.run_ready
     raise RuntimeError("wamp_b2b needs a tx or aio worker, not %r" % f)
+
+
+_QUIET = []
+
+
+def _quiet_twisted():
+    """unhandled-error reports of garbage collected Deferreds go nowhere (not to stderr)"""
+    if not _QUIET:
+        _QUIET.append(1)
+        try:
+            from twisted.logger import globalLogBeginner
+            globalLogBeginner.beginLoggingTo([lambda event: None], redirectStandardIO=False,
+                                             discardBuffer=True)
+        except Exception:
+            pass
 
 
 def session_class():
@@ -310,7 +326,10 @@ class B2B:
     # --- pump -----------------------------------------------------------------
     def run(self, limit=10000):
         n = 0
-        while self.queue:
+        while True:
+            self.settle()
+            if not self.queue:
+                break
             kind, name, data, is_binary = self.queue.pop(0)
             n += 1
             if n > limit:
@@ -341,8 +360,6 @@ class B2B:
                     s.onClose(True)
                 except Exception as e:
                     self.escapes.append((name, e))
-            self.settle()
-        self.settle()
         return n
 
     # --- observing a future ---------------------------------------------------
